@@ -269,6 +269,31 @@ func c09Run(w *core.W, j int, exact bool) {
 		}
 		w.Count("single_section_replies", 1)
 	}
+	if j%16 == 11 {
+		// a long question name owning a few large records of one section, no OPT: what survives is
+		// a question and one record that fit only when the owner is compressed against the question
+		var qn model.Name
+		for k := 0; k < 4; k++ {
+			lab := make([]byte, 40+g.R.IntN(20))
+			for i := range lab {
+				lab[i] = byte('a' + g.R.IntN(26))
+			}
+			qn = append(qn, lab)
+		}
+		qn = append(qn, []byte("example"))
+		mm.Q = []model.Question{{Name: qn, Type: 16, Class: 1}}
+		var recs []*model.Rec
+		for k := 0; k < 2+g.R.IntN(3); k++ {
+			owner := qn.Clone()
+			if k > 0 && g.R.IntN(3) == 0 {
+				owner = append(model.Name{[]byte("sub")}, qn[1:]...)
+			}
+			recs = append(recs, &model.Rec{Owner: owner, Type: 16, Class: 1, TTL: 60, L: model.Layouts[16], Vals: []any{[][]byte{g.TextBytes(200 + g.R.IntN(56))}}})
+		}
+		mm.An, mm.Ns, mm.Ar = nil, nil, nil
+		*[]*[]*model.Rec{&mm.An, &mm.Ns, &mm.Ar}[j/16%3] = recs
+		w.Count("long_question_single_section_replies", 1)
+	}
 	if g.R.IntN(4) == 0 {
 		// TXT-family records without any string (RDLENGTH 0), anywhere in the reply
 		for x := 1 + g.R.IntN(3); x > 0; x-- {
